@@ -323,21 +323,25 @@ theorem multinomialState_le (probs : List α) (r : α) : multinomialState probs 
   | none => simp
   | some i => have := invCdf_bounds _ _ _ _ _ _ h; simp only; omega
 
-theorem randMultinomial_eq (probs : List α) : ∀ (n : Nat) (draws : List α), n ≤ draws.length →
-    randMultinomial probs n draws = .ok ((draws.take n).map (multinomialState probs))
-  | 0, _, _ => by simp [randMultinomial]
+theorem multinomialLoop_eq (probs : List α) : ∀ (n : Nat) (draws : List α), n ≤ draws.length →
+    multinomialLoop probs n draws = .ok ((draws.take n).map (multinomialState probs))
+  | 0, _, _ => by simp [multinomialLoop]
   | n + 1, [], h => by simp at h
   | n + 1, r :: rs, h => by
-    have := randMultinomial_eq probs n rs (by simpa using h)
-    simp [randMultinomial, this]
+    have := multinomialLoop_eq probs n rs (by simpa using h)
+    simp [multinomialLoop, this]
 
-theorem randMultinomial_starved (probs : List α) : ∀ (n : Nat) (draws : List α), draws.length < n →
-    randMultinomial probs n draws = .error .starved
+theorem multinomialLoop_starved (probs : List α) : ∀ (n : Nat) (draws : List α), draws.length < n →
+    multinomialLoop probs n draws = .error .starved
   | 0, _, h => by simp at h
-  | n + 1, [], _ => by simp [randMultinomial]
+  | n + 1, [], _ => by simp [multinomialLoop]
   | n + 1, r :: rs, h => by
-    have := randMultinomial_starved probs n rs (by simpa using h)
-    simp [randMultinomial, this]
+    have := multinomialLoop_starved probs n rs (by simpa using h)
+    simp [multinomialLoop, this]
+
+theorem randMultinomial_eq (probs : List α) (n : Nat) (draws : List α) (hok : multinomialRaises probs n = false)
+    (h : n ≤ draws.length) : randMultinomial probs n draws = .ok ((draws.take n).map (multinomialState probs)) := by
+  simp only [randMultinomial, hok, Bool.false_eq_true, if_false, multinomialLoop_eq probs n draws h]
 end Generic
 
 theorem sum_indicator_zero (a : Nat) : ∀ (k : Nat), k ≤ a → ((List.range k).map (fun j => if a = j then 1 else 0)).sum = 0
